@@ -17,6 +17,41 @@ func init() {
 }
 
 func runC05(c *Ctx) {
+	c.Rule("C05.ACCEPT", "SIBLING: ParseEnvelope accepts every envelope AppendRawWithMeta can write: on the branch that returns the embedded database name, the declared name length is constrained only by the payload's own length — a constant cap on it is a reader-side restriction the writer does not have (an entry written for a name of that length is then replayed as an unrecognised payload and its acknowledged rows are skipped)")
+	if fn := c.MustFunc("C05.ACCEPT", "internal/wal.ParseEnvelope"); fn != nil {
+		isLen := func(v ssa.Value) bool {
+			return derives(v, func(x ssa.Value) bool {
+				cl, ok := x.(*ssa.Call)
+				return ok && strings.HasSuffix(callName(cl), ".Uint16")
+			}, true, 6)
+		}
+		n := 0
+		for _, in := range instrs(fn, false) {
+			r, ok := in.(*ssa.Return)
+			if !ok || len(r.Results) != 2 {
+				continue
+			}
+			if _, isParam := resolveParam(unspill(r, r.Results[0])).(*ssa.Parameter); isParam {
+				continue // the fallback: default database, whole payload
+			}
+			n++
+			var caps []string
+			for _, f := range factsAt(r) {
+				if f.Kind != factCmp {
+					continue
+				}
+				for _, pr := range [][2]ssa.Value{{f.X, f.Y}, {f.Y, f.X}} {
+					if isLen(pr[0]) {
+						if k, ok := constInt(pr[1]); ok && k != 0 {
+							caps = append(caps, fmt.Sprintf("%s %d", f.Op, k))
+						}
+					}
+				}
+			}
+			c.Check(len(caps) == 0, "C05.ACCEPT", fmt.Sprintf("ParseEnvelope|enveloped-return#%d", n), r.Pos(), "the name length is bounded only by the payload length", "ParseEnvelope recognises an envelope only if its name length satisfies a constant bound ("+strings.Join(caps, ", ")+") that AppendRawWithMeta does not enforce: an entry written for a database name outside it is read back as a bare payload, fails to decode, is counted as corrupted, and the WAL file is deleted after the other entries replayed")
+		}
+		c.Check(n >= 1, "C05.ACCEPT", "ParseEnvelope|enveloped-returns", fn.Pos(), "enveloped return found", "no return of an embedded name found")
+	}
 	p := c.P
 	c.Rule("C05.KEYS", "ORDER: where WAL rows are built, no client-named column can be stored after (and so replace) the _database/_measurement routing keys of the same row map (same rule as C32.WALKEYS)")
 	c.Rule("C05.ROUTE", "FLOW: every consumer of WAL row records routes by the _measurement key and takes the database from the _database key; columnar entries take it from the envelope (same rule as C32.REPLAY)")
